@@ -174,7 +174,7 @@ def serial(res):
 def run(tier, seed):
     rng = random.Random(seed)
     mc = datacheck.design_check(tier)
-    nwalk, depth = (700, 8) if tier == "quick" else (4000, 8)
+    nwalk, depth = (700, 8) if tier == "quick" else (8000, 8)
     ws = datacheck.walks(nwalk, depth, seed, cfg="cfg/Access_sim.cfg", module="Access_MC.tla")
     wsb = datacheck.walks(nwalk // 3, depth, seed + 5, cfg="cfg/Access_sim_b.cfg", module="Access_MC.tla")
     execs = []
